@@ -612,10 +612,96 @@ def rule_hd_startwin(cx, rep, port):
     rep.decide(okw, 'list wrapping', rets[-1] if rets else ts, 'the select list is evaluated as a fresh list literal', 'the translated select list is no longer wrapped as a fresh list literal')
 
 
+def _except_model(cx, rep, port, p, mod, fd):
+    """EXCEPT decided end to end on abstract inputs: translate_except_expression is run on select lists over a table of 12 columns (a
+    column named twice, columns 3 and 11 - whose order differs numerically and as text -, a list written in descending order); the
+    index list it puts into the generated call is then handed to select_except together with a record of 12 field tokens (and one of 2:
+    shorter than the indices).  Both the header and the record must be the input without exactly the excluded columns, in input order.
+    True when every scenario could be evaluated."""
+    import re as _re
+    from .. import absexec as AX
+    se = p.func(mod, 'select_except', required=False)
+    if se is None or len(fd.args.args) < 4:
+        return False
+    header = [AX.Abs('Name', id='h%d' % (i + 1)) for i in range(12)]
+    scen = [('a3,a11', {2, 10}), ('a2, a2', {1}), ('a12,a1', {0, 11}), ('a5,a.h5,a7', {4, 6}), ('a1', {0}), ('a10,a9,a11,a2', {1, 8, 9, 10})]
+    bad = {}
+    try:
+        for text, want in scen:
+            vmap = {}
+            for i in range(12):
+                vmap['a%d' % (i + 1)] = AX.Abs('VarInfo', index=i)
+                vmap['a.h%d' % (i + 1)] = vmap['a%d' % (i + 1)]
+
+            def on_attr(ex, node, obj, attr):
+                if isinstance(obj, AX.Abs) and obj.kind == 'VarInfo' and attr == 'index':
+                    return ('nomemo', obj.props['index'])
+                return AX.NOT_HANDLED
+
+            def on_call(ex, node, fname, recv, args, vmap=vmap):
+                short = node.func.attr if isinstance(node.func, ast.Attribute) else fname.split('.')[-1]
+                if short.endswith('Error'):
+                    return AX.Abs(short)
+                if short == 'combine_string_literals' and args:
+                    return args[0]
+                if short in ('str_strip',) and len(args) == 1 and isinstance(args[0], str):
+                    return args[0].strip(' ')
+                if recv is vmap and short == 'hasOwnProperty' and len(args) == 1:
+                    return args[0] in vmap
+                return AX.NOT_HANDLED
+            ex = AX.Explorer(p, mod, on_call=on_call, on_attr=on_attr, max_choices=1)
+            runs, cut = ex.explore(fd, [text, vmap, [], list(header)])
+            if len(runs) != 1:
+                return False
+            kind, val, node = runs[0].outcome
+            if kind != 'return' or not isinstance(val, (list, tuple)) or len(val) != 2 or not isinstance(val[1], str):
+                if kind == 'raise':
+                    bad.setdefault('except list', 'EXCEPT {}: raises {}'.format(text, getattr(val, 'kind', val)))
+                    continue
+                return False
+            out_header, code = val
+            m_ = _re.match(r'^select_except\(record_a, \[([0-9, ]*)\]\)$', code)
+            if m_ is None:
+                bad.setdefault('except call', 'EXCEPT {}: the generated projection is `{}`'.format(text, code[:60]))
+                continue
+            idxs = [int(x) for x in m_.group(1).replace(' ', '').split(',') if x != '']
+            want_hdr = [h for i, h in enumerate(header) if i not in want]
+            if not (isinstance(out_header, list) and len(out_header) == len(want_hdr) and all(a is b for a, b in zip(out_header, want_hdr))):
+                bad.setdefault('except header', 'EXCEPT {}: the output header keeps columns {} instead of {}'.format(text, [x.props['id'] for x in out_header] if isinstance(out_header, list) else out_header, [x.props['id'] for x in want_hdr]))
+            for width in (12, 2):
+                rec = [AX.Abs('Fld', id='f%d' % (i + 1)) for i in range(width)]
+                ex2 = AX.Explorer(p, mod, max_choices=1)
+                runs2, _ = ex2.explore(se, [rec, list(idxs)])
+                if len(runs2) != 1 or runs2[0].outcome[0] != 'return' or not isinstance(runs2[0].outcome[1], list):
+                    if len(runs2) == 1 and runs2[0].outcome[0] == 'raise':
+                        bad.setdefault('except records', 'EXCEPT {} on a record of {} fields raises {}'.format(text, width, getattr(runs2[0].outcome[1], 'kind', '?')))
+                        continue
+                    return False
+                got = runs2[0].outcome[1]
+                want_rec = [f for i, f in enumerate(rec) if i not in want]
+                if got is rec:
+                    bad.setdefault('except copy', 'select_except returns the input record itself')
+                if not (len(got) == len(want_rec) and all(a is b for a, b in zip(got, want_rec))):
+                    bad.setdefault('except records', 'EXCEPT {} (generated index list {}) on a record of {} fields keeps fields {} instead of {}: header and records no longer line up'.format(text, idxs, width, [x.props['id'] for x in got if isinstance(x, AX.Abs)], [x.props['id'] for x in want_rec]))
+    except (Undecided, AX.Cut, AX._NeedChoice, KeyError, IndexError, TypeError, ValueError) as e_:
+        import os
+        if os.environ.get('RBQL_VERIF_DEBUG'):
+            print('HD-EXCEPT model gave up:', type(e_).__name__, e_)
+        return False
+    good = {'except list': 'every listed name is resolved', 'except call': 'the generated call is select_except(record_a, [indices])', 'except header': 'the header is the input header without the excluded columns',
+            'except records': 'records lose exactly the excluded columns (duplicates, two-digit indices, descending lists, short records included)', 'except copy': 'select_except returns a new list'}
+    for k in ('except list', 'except call', 'except header', 'except records', 'except copy'):
+        rep.decide(k not in bad, k, fd, good[k] + ' ({} abstract EXCEPT lists)'.format(len(scen)), bad.get(k, ''))
+    return True
+
+
 def rule_hd_except(cx, rep, port):
     p = cx.port(port)
     mod = cx.engine_mod(port)
     fd = p.func(mod, 'translate_except_expression')
+    if _except_model(cx, rep, port, p, mod, fd):
+        return
+    rep._fallback = 'the EXCEPT translation is outside the abstract interpreter'
     from .pa import marker_template
     hdr_param = fd.args.args[3].arg
     map_param = fd.args.args[1].arg
